@@ -317,6 +317,8 @@ def n2_n3(prog, rep, up, L):
     eblocks = [b for b in f.blocks.values() if b.cond is not None and (
         (b.term_cls == "SwitchStmt" and norm(b.cond) == ERR) or
         (len(b.succs) == 2 and b.term_cls != "SwitchStmt" and (_eval_errno(b.cond, EAGAIN) is not None)))]
+    # the warning macros look at errno themselves (to choose between warn and warnx): those tests are not the handler's
+    eblocks = [b for b in eblocks if not any(m.startswith("warn") for m in b.cond.macro)]
     switch_form = any(b.term_cls == "SwitchStmt" for b in eblocks)
     order = {bid: i for i, bid in enumerate(f.rpo())}
     eblocks.sort(key=lambda b: order.get(b.id, 1 << 30))
